@@ -191,6 +191,13 @@ def child_params(c, mode, pre, shift=0, atom=False):
         groups[key] = cn
         out.append((cn, l, cf))
         mapping[n] = cn
+    if "revnames" in mode and len(out) >= 2:
+        # the child's names are handed out in the opposite order: its parameter tuple (sorted by name) then lists the
+        # statistics in another order than the parent-to-child dictionary mentions them
+        names = [x[0] for x in out]
+        ren = dict(zip(names, reversed(names)))
+        out = [(ren[n], l, f) for n, l, f in out]
+        mapping = {k: ren[v] for k, v in mapping.items()}
     if "track" in mode and not atom and len(out) < 2:
         used = {x[1] for x in out}
         l = next((a for a in reversed(c.alphabet) if a not in used), c.alphabet[-1])  # preferably independent of the others
@@ -972,4 +979,4 @@ PARAM_SETS = [
     [("k_0", "a", 0), ("k_1", "a", 0), ("k_2", "b", 0)],
     [("k_0", "b", 1)],
 ]
-MODES = ["", "rename", "merge", "merge rename", "drop", "drop merge rename", "drop rename last", "last merge", "track", "track rename last"]
+MODES = ["", "rename", "merge", "merge rename", "drop", "drop merge rename", "drop rename last", "last merge", "track", "track rename last", "rename revnames", "revnames"]
